@@ -9,7 +9,7 @@
     in-kernel evaluation of the model of reduce. *)
 From Coq Require Import ZArith.
 From LC Require Import Spec.Encodings Spec.Confluence Spec.NorEval Model.Reduction Gen.Terms
-  Proofs.Sound Proofs.ReduceProps Proofs.Normalise Proofs.Convert Proofs.Grids Proofs.SignedArith.
+  Proofs.Sound Proofs.ReduceProps Proofs.Normalise Proofs.Convert Proofs.SignedArith.
 
 Theorem C15_church : signed_spec church lc_num_signed_simplify_church lc_num_signed_modulus_church
   lc_num_signed_to_signed_church lc_num_signed_add_church lc_num_signed_sub_church lc_num_signed_mul_church.
@@ -47,10 +47,6 @@ Proof. exact nor_normalises. Qed.
 Theorem C15_hno_returns : forall t v, red t v -> nfb v = true -> exists fuel c, reduce_m fuel HNO 0 t = Some (v, c).
 Proof. exact hno_reduce_normalises. Qed.
 
-(** in-kernel evaluation of the model of reduce on a grid (p, n <= 3; p1, n1, p2, n2 <= 2), NOR and HNO *)
-Theorem C15_bounded_grid : forallb (fun b => b) signed_grid = true.
-Proof. exact signed_grid_ok. Qed.
-
 Print Assumptions C15_church.
 Print Assumptions C15_scott.
 Print Assumptions C15_parigot.
@@ -60,4 +56,3 @@ Print Assumptions C15_canonical.
 Print Assumptions C15_pairs_normal.
 Print Assumptions C15_nor_returns.
 Print Assumptions C15_hno_returns.
-Print Assumptions C15_bounded_grid.
